@@ -171,6 +171,19 @@ def lorom_bus_contract(bus, v):
             check("mirror_same_offset", a.physical == bus.get_address(v - 0x800000).physical)
 
 
+def beyond_bus_contract(bus, v):
+    """An address beyond the 24-bit bus has no bank (banks are 0x00..0xFF): it is rejected like any unmapped bank -- it never aliases a
+    mapped bank through its low bits."""
+    assume(v >= 0x1000000)
+    rejected = False
+    try:
+        a = bus.get_address(v)
+        a.physical
+    except KeyError:
+        rejected = True
+    check("addresses_beyond_the_24_bit_bus_are_unmapped", rejected)
+
+
 def hirom_bus_contract(bus, v):
     assume(0 <= v and v < 0x1000000)
     bank = busmath.bank_of(v)
